@@ -90,7 +90,18 @@ FAMILIES["metric"] = {
     "scenarios": [],
 }
 
+FAMILIES["rm"] = {
+    # Core.tla with the rollback-mitigation gate of the observers switched on: persistence reports of every copy of a
+    # vBucket in any order / vbUUID / absence against events waiting at the gate; Close() while events wait
+    "driver": "core", "monitor": "MonTrace",
+    "exhaustive": {"quick": [mc("MCRmQ", "1 vBucket, 2 copies, seqnos <=2, reports (uuid 1|2, seq 0..2) in any order, absent replica, Close()")],
+                   "thorough": [mc("MCRm", "1 vBucket, 3 copies, seqnos <=3, reports in any order, absent replicas, 1 ack, Close()", 5000)]},
+    "simulate": {"quick": [sim("SimRm", 60, 50), sim("SimRm2", 80, 44)], "thorough": [sim("SimRm", 1200, 60), sim("SimRm2", 1500, 50)]},
+    "scenarios": [scen("WitReplayRm", "wit_rm.ndjson")],
+}
+
 PROPS = {
+    "C07": {"families": ["rm"]},
     "C16": {"families": ["metric"]},
     "C09": {"custom": "funcheck"},
     "C19": {"custom": "funcheck"},
